@@ -306,6 +306,31 @@ def curated_calls(obj, rng, nodes_by_type):
         out.append({"t": "call", "name": "resized_from", "kw": {"new_shape": _T(rng.randrange(1, 11), rng.randrange(1, 11))}})
         out.append({"t": "call", "name": "rescaled_from", "kw": {"rescale_factor": rng.choice([0.5, 2.0])}})
         out.append({"t": "call", "name": "geometry.pixel_coordinates_2d_from", "kw": {"scaled_coordinates_2d": _T(rng.uniform(-3, 3), rng.uniform(-3, 3))}})
+    if tn == "Mask2D":
+        g = pick("Grid2D")
+        if g:
+            for nm in ("grid_pixels_2d_from", "grid_pixel_centres_2d_from", "grid_pixel_indexes_2d_from"):
+                out.append({"t": "call", "name": "geometry." + nm, "kw": {"grid_scaled_2d": {"$node": g}}})
+            out.append({"t": "call", "name": "geometry.grid_scaled_2d_from", "kw": {"grid_pixels_2d": {"$node": g}}})
+        out.append({"t": "call", "name": "geometry.scaled_coordinates_2d_from", "kw": {"pixel_coordinates_2d": _T(rng.randrange(0, 6), rng.randrange(0, 6))}})
+        out.append({"t": "call", "name": "geometry.scaled_coordinate_2d_to_scaled_at_pixel_centre_from", "kw": {"scaled_coordinate_2d": _T(rng.uniform(-3, 3), rng.uniform(-3, 3))}})
+    if tn == "Region2D":
+        out.append({"t": "call", "name": "parallel_front_region_from", "kw": {"pixels": _T(0, rng.randrange(1, 3))}})
+        out.append({"t": "call", "name": "parallel_trailing_region_from", "kw": {"pixels": _T(0, rng.randrange(1, 3))}})
+        out.append({"t": "call", "name": "serial_front_region_from", "kw": {"pixels": _T(0, rng.randrange(1, 3))}})
+        out.append({"t": "call", "name": "serial_trailing_region_from", "kw": {"pixels": _T(0, rng.randrange(1, 3))}})
+        out.append({"t": "call", "name": "parallel_full_region_from", "kw": {"shape_2d": _T(rng.randrange(4, 9), rng.randrange(4, 9))}})
+        out.append({"t": "call", "name": "serial_x_front_range_from", "kw": {"pixels": _T(0, rng.randrange(1, 3))}})
+    if tn == "Layout2D":
+        a = pick("Array2D")
+        if a:
+            for nm in ("extract_parallel_overscan_array_2d_from", "extract_serial_overscan_array_from", "parallel_overscan_binned_array_1d_from",
+                       "serial_overscan_binned_array_1d_from", "original_orientation_from"):
+                out.append({"t": "call", "name": nm, "kw": {"array": {"$node": a}}})
+        out.append({"t": "call", "name": "new_rotated_from", "kw": {"roe_corner": _T(rng.choice([0, 1]), rng.choice([0, 1]))}})
+        r = pick("Region2D")
+        if r:
+            out.append({"t": "call", "name": "layout_extracted_from", "kw": {"extraction_region": {"$node": r}}})
     if tn in ("Array2D", "Kernel2D"):
         out.append({"t": "call", "name": "zoomed_around_mask", "kw": {"buffer": rng.randrange(0, 3)}})
         out.append({"t": "call", "name": "extent_of_zoomed_array", "kw": {"buffer": rng.randrange(0, 3)}})
